@@ -51,7 +51,8 @@ def vector_instrs(reg):
 
 
 UMLAUT_INSTR = "VERIF.N\xd6\xd6P*MIT*UML\xc4UTEN*\xdcBER*DREIUNDZWANZIG*BYTES"     # a custom instruction with a non-ASCII name (harness)
-CUSTOM_INSTRS = ["VERIF.PROBE", "VERIF.NOOP*WITH*A*NAME*LONGER*THAN*ANY*BUILTIN*INSTRUCTION", UMLAUT_INSTR, "VERIF." + "\u00c4\u00d6\u00dc*" * 12 + "NOOP", "VERIF.MyInstruction", "VERIFSQUARE", "verif.lower", "2VERIF", "424242", "4.25"]
+CUSTOM_INSTRS = ["VERIF.PROBE", "VERIF.NOOP*WITH*A*NAME*LONGER*THAN*ANY*BUILTIN*INSTRUCTION", UMLAUT_INSTR, "VERIF." + "\u00c4\u00d6\u00dc*" * 12 + "NOOP", "VERIF.MyInstruction", "VERIFSQUARE", "verif.lower", "2VERIF", "424242", "4.25", "BOOL[1,0]", "INT[7", "integer.max", "Float.<", "name.cat"]
+CUSTOM_TREE = CUSTOM_INSTRS[:10] + CUSTOM_INSTRS[12:]      # (a name shaped like a vector literal prints as that literal: outside C11's domain)
 RAND = ["BOOLEAN.RAND", "INTEGER.RAND", "FLOAT.RAND", "NAME.RAND", "NAME.RANDBOUNDNAME", "BOOLVECTOR.RAND", "INTVECTOR.RAND", "FLOATVECTOR.RAND"]
 LISTREC = ["LIST.ADD", "LIST.SET"]
 LISTVAL = ["LIST.REMOVE", "LIST.GET", "LIST.BVAL", "LIST.IVAL", "LIST.FVAL"]
@@ -102,6 +103,8 @@ def run_c05(ctx):
     ints = [n for n in stack_instrs(reg) if n.startswith("INTEGER.")]
     mc_stage(ctx, "stack_int", ints, dict(IntVals=[-2147483648, -1, 0, 1, 2, 3, 2147483647] if not q else [-1, 0, 1, 2, 2147483647], DInt=d + 1))
     run_events(ctx, "rand_stack", random_instr_cases(ctx, stack_instrs(reg), 20 if q else 1500, ctx.seed))
+    # the same instructions executed from inside a running loop (continuation on EXEC, counter on INDEX)
+    run_events(ctx, "in_loops", flush_in_loop_cases(ctx))
 
 
 def points_of(t):
@@ -203,6 +206,23 @@ def run_c08(ctx):
         mc_stage(ctx, "code_subst_trees", three, dict(CodePool="trees", DCode=3, DInt=0))
     run_events(ctx, "rand_code", random_instr_cases(ctx, instrs, 30 if q else 5000, ctx.seed, small_ints=True))
     run_events(ctx, "code_points", code_point_cases(ctx, 150 if q else 20000))
+    # the same instructions on small operands while the CODE stack holds hundreds of points in unrelated items below them
+    # (a state re-used for several programs): what lies below the operands does not matter
+    I = lambda v: {"k": "int", "v": v}
+    ballast = [lst([I(j) for j in range(60)]), lst([lst([I(j), {"k": "id", "v": "w%d" % j}]) for j in range(30)]), lst([I(1)] * 99), I(5)]
+    cs = []
+    gq = gen.Gen(ctx.seed + 23, ctx.registry, small_ints=True)
+    for name in instrs:
+        for j in range(2 if q else 12):
+            s = gen.empty_state()
+            a, b, c = nested_tree(gq, gq.r.randint(1, 6)), nested_tree(gq, gq.r.randint(1, 6)), nested_tree(gq, gq.r.randint(1, 4))
+            if j % 2:
+                b = gq.r.choice(points_of(a))
+            s["code"] = [a, b, c] + ballast
+            s["int"] = [gq.r.randint(-2, 8), 1, 0]; s["bool"] = [True]; s["name"] = ["a"]
+            s["exec"] = [ins(name), a, b]
+            cs.append({"id": "crowded-%s-%d" % (name, j), "pre": s, "acts": [{"a": "step"}]})
+    run_events(ctx, "crowded_code_stack", cs)
     # the Item functions themselves (API level)
     g = gen.Gen(ctx.seed + 19, ctx.registry, small_ints=True)
     ops = []
@@ -376,6 +396,24 @@ def run_c20_instr(ctx):
                                                     FloatVals=[F["one"], F["x15"], F["nan"]] if not q else [F["x15"]], DFloat=1, DCode=1 if q else 2))
     # every value position of nested records (positions beyond the first values of a nested sublist)
     mc_stage(ctx, "neighbor_vals_pos", NEIGH[1:], dict(CodePool="recs", IntVals=[2, 3, 9], DInt=4, FloatVals=[F["x15"]], DFloat=1, DCode=2))
+    # operand tuples that describe no neighbourhood (dimensions or size <= 0, more than 64 dimensions) on states that already
+    # hold vectors from earlier instructions: nothing is returned and nothing that was there is used up
+    g = gen.Gen(ctx.seed + 83, ctx.registry, small_ints=True)
+    cs = []
+    recs = [lst([{"k": "int", "v": 10 * j}, lst([{"k": "int", "v": 10 * j + 1}, {"k": "bool", "v": j % 2 == 0}]), {"k": "int", "v": 10 * j + 2}, {"k": "float", "v": gen.f2b(j + 0.5)}]) for j in range(9)]
+    for i in range(80 if q else 4000):
+        s = g.state(depth=2)
+        s["ivec"] = [[5, 7, 8], [0, 1]] + s["ivec"]; s["bvec"] = [[True, False]] + s["bvec"]; s["fvec"] = [[gen.f2b(1.0)]] + s["fvec"]
+        s["code"] = recs + s["code"]
+        name = g.r.choice(NEIGH)
+        dims, idx, size = g.r.choice([-1, 0, 0, 1, 2, 65, 100]), g.r.randint(-1, 9), g.r.choice([0, -5, 9, 9, 100, 1])
+        s["int"] = ([g.r.randint(0, 4)] if name != NEIGH[0] else []) + [dims, idx, size] + s["int"]
+        if g.r.random() < 0.5:
+            s["int"] = ([g.r.randint(0, 4)] if name != NEIGH[0] else []) + [size, idx, dims] + s["int"][3 + (name != NEIGH[0]):]
+        s["float"] = [gen.f2b(g.r.choice([1.0, 1.5, 0.0]))] + s["float"]
+        s["exec"] = [ins(name)]
+        cs.append({"id": "nonb-%05d" % i, "pre": s, "acts": [{"a": "step"}]})
+    run_events(ctx, "no_neighbourhood", cs)
 
 
 def io_sequence_cases(ctx, n):
@@ -413,6 +451,16 @@ def run_c17_instr(ctx):
     mc_stage(ctx, "io", IO, dict(VecPool="small", IntVals=IDX8, DInt=1, DVec=2))
     cases = io_sequence_cases(ctx, 60 if q else 3000)
     run_events(ctx, "io_sequences", cases)
+    # whole runs, also those a limit cuts short: the messages written so far stay enqueued, the messages not yet read stay in
+    # the INPUT queue (the state a run leaves behind is the state of that many single steps)
+    cases = []
+    for c in io_sequence_cases(ctx, 40 if q else 1500):
+        pre = json.loads(json.dumps(c["pre"]))
+        pre["exec"] = [x for x in pre["exec"] if not (x.get("k") == "ins" and x["v"] in NONDET)]
+        pre["cfg"]["push_limit"] = [2, 5, 9, 14, 1000][len(cases) % 5]
+        pre["cfg"]["growth_cap"] = [500, 500, 0, 1][len(cases) % 4]
+        cases.append({"id": "iorun-" + c["id"], "pre": pre, "acts": [{"a": "copy_to_code"}, {"a": "steps", "k": max(pre["cfg"]["push_limit"], 0) + 3 if pre["cfg"]["push_limit"] < 100 else 70}, {"a": "run_from_start"}]})
+    run_events(ctx, "io_runs", cases)
 
 
 def graph_sequence_cases(ctx, n):
@@ -459,7 +507,30 @@ def run_c18_instr(ctx):
                 s["int"] = [3, 7, 42]          # off (top), on
                 s["exec"] = [ins("GRAPH.NODE*STATESWITCH")]
                 cases.append({"id": "stateswitch-%03d" % k, "pre": s, "acts": [{"a": "step"}]}); k += 1
+    cases += same_graph_cases()
     run_events(ctx, "graph_sequences", cases)
+
+
+def same_graph_cases():
+    """two snapshots with the same nodes, states, edges and weights whose incoming-edge lists were filled in different
+    orders (snapshots supplied by a host, graph literals): nothing differs, GRAPH.PRINT*DIFF pushes nothing"""
+    import itertools
+    cases = []
+    W = [gen.f2b(x) for x in (1.0, 2.0, 0.5, 4.0)]
+    nodes = [{"id": i, "st": i % 2} for i in (1, 2, 3, 4)]
+    k = 0
+    for n_in in (2, 3):
+        origins = list(range(1, n_in + 1))
+        for perm in list(itertools.permutations(origins))[1:]:
+            for changed in (False, True):
+                a = {"nodes": nodes, "edges": [{"d": 4, "in": [{"o": o, "w": W[o - 1]} for o in origins]}, {"d": 1, "in": [{"o": 4, "w": W[3]}]}]}
+                b = {"nodes": nodes, "edges": [{"d": 1, "in": [{"o": 4, "w": W[3]}]}, {"d": 4, "in": [{"o": o, "w": (W[3] if changed and o == perm[0] else W[o - 1])} for o in perm]}]}
+                for older, newer in ((a, b), (b, a)):
+                    s = gen.empty_state()
+                    s["nid"] = 5; s["graph"] = [newer, older]; s["name"] = ["below"]
+                    s["exec"] = [ins("GRAPH.PRINT*DIFF"), ins("GRAPH.PRINT")]
+                    cases.append({"id": "samegraph-%03d" % k, "pre": s, "acts": [{"a": "steps", "k": 2}]}); k += 1
+    return cases
 
 
 def ins(n):
@@ -549,6 +620,23 @@ def run_c06(ctx):
             s["exec"] = [lst([ins("NOOP")] * (n - 1) + [ins(t) for t in tail] + [{"k": "int", "v": 5}, {"k": "int", "v": 6}, {"k": "int", "v": 7}])]
             cs.append({"id": "longlist-%d-%s" % (n, tail[0]), "pre": s, "acts": [{"a": "steps", "k": 3}]})
     run_events(ctx, "configuration_and_long_lists", cs)
+    # loops cut off by the step limit: the state a run leaves behind is the state of that many single steps - counter on
+    # INDEX, continuation on EXEC - so that the loop goes on where it stopped when the state is run again
+    cs = []
+    I = lambda v: {"k": "int", "v": v}
+    for k, (n, lim) in enumerate([(7, 9), (7, 4), (3, 2), (5, 13), (4, 30), (6, 0)]):
+        for loop in ("EXEC.LOOP", "CODE.LOOP", "INTVECTOR.LOOP"):
+            s = gen.empty_state()
+            s["cfg"]["push_limit"] = lim
+            body = lst([ins("INDEX.CURRENT"), ins("VERIF.PROBE"), ins("INTEGER.POP")])
+            if loop == "EXEC.LOOP":
+                s["exec"] = [lst([I(n), ins("INDEX.DEFINE"), ins("EXEC.LOOP"), body, I(99)])]
+            elif loop == "CODE.LOOP":
+                s["exec"] = [lst([I(0), ins("INDEX.DEFINE"), ins("CODE.QUOTE"), body, ins("CODE.LOOP"), I(99)])]
+            else:
+                s["exec"] = [lst([{"k": "ivec", "v": list(range(n))}, ins("INTVECTOR.LOOP"), lst([ins("VERIF.PROBE"), ins("INTEGER.POP")]), I(99)])]
+            cs.append({"id": "cutloop-%d-%s" % (k, loop), "pre": s, "acts": [{"a": "copy_to_code"}, {"a": "steps", "k": lim + 3}, {"a": "run_from_start"}]})
+    run_events(ctx, "cut_loops", cs)
 
 
 def run_c07(ctx):
@@ -600,7 +688,29 @@ def run_c07(ctx):
                 cases.append({"id": "redef-%04d" % k, "pre": s, "acts": [{"a": "steps", "k": 30}]}); k += 1
     if q:
         cases = cases[::3]
+    # bound values of every size come back unchanged (lists of 3 ... 400 points), whatever the configured limits
+    I = lambda v: {"k": "int", "v": v}
+    for n in (3, 99, 100, 101, 150, 400):
+        for how in ("CODE", "EXEC"):
+            for mp in (100, 5):
+                big = lst([I(j) for j in range(n)])
+                s = gen.empty_state()
+                s["cfg"]["max_prog_points"] = mp
+                s["exec"] = ([ins("CODE.QUOTE"), big, {"k": "id", "v": "x"}, ins("CODE.DEFINE")] if how == "CODE" else [{"k": "id", "v": "x"}, ins("EXEC.DEFINE"), big]) + \
+                    [ins("NAME.QUOTE"), {"k": "id", "v": "x"}, ins("CODE.DEFINITION"), ins("NAME.QUOTE"), {"k": "id", "v": "x"}, ins("CODE.DEFINITION"), ins("CODE.LENGTH")]
+                cases.append({"id": "bigdef-%d-%s-%d" % (n, how, mp), "pre": s, "acts": [{"a": "steps", "k": 12}]})
     run_events(ctx, "redefinitions", cases)
+    # a NAME.QUOTE that is still pending when a run starts (the previous program ended with it, or was cut off right
+    # after it) applies to the next name the new run meets
+    cases = []
+    for k, (bindv, prog) in enumerate([(I(5), ["x", "x"]), ({"k": "bool", "v": True}, ["x"]), (lst([I(1), I(2)]), [lst(["x", 7]), "x"]), (I(5), [7, "x", "x"]), (I(5), [])]):
+        for quote in (True, False):
+            s = gen.empty_state()
+            s["bind"] = {"x": bindv}; s["quote"] = quote
+            conv = lambda t: {"k": "id", "v": t} if isinstance(t, str) else I(t) if isinstance(t, int) else lst([conv(u) for u in t["v"]]) if isinstance(t, dict) and t.get("k") == "list" and any(not isinstance(u, dict) for u in t["v"]) else t
+            s["exec"] = [conv(t) for t in prog]
+            cases.append({"id": "pendingquote-%d-%s" % (k, quote), "pre": s, "acts": [{"a": "copy_to_code"}, {"a": "steps", "k": 8}, {"a": "run_from_start"}]})
+    run_events(ctx, "pending_quote", cases)
 
 
 # instructions whose result is not a function of the abstract state: random draws, the shell-out, and the graph
@@ -638,6 +748,15 @@ def run_c02(ctx):
             s["code"] = [json.loads(json.dumps(x)) for x in s["exec"]] + (s["code"] if g.r.random() < 0.5 else [])
         cs.append({"id": "randrun-%05d" % i, "pre": s, "acts": [{"a": "copy_to_code"}, {"a": "steps", "k": max(lim, 0) + 3}, {"a": "run_from_start"}]})
     run_events(ctx, "random_runs", cs)
+    # "a step on an empty EXEC stack reports completion and changes nothing": every part of the state, the pending
+    # NAME.QUOTE flag and the send flag included, and however the stack became empty
+    cs = []
+    for i in range(40 if q else 2000):
+        s = g.state(depth=2)
+        s["quote"] = i % 2 == 0; s["send"] = i % 3 == 0
+        s["exec"] = [] if i % 4 else [ins("NAME.QUOTE")] if i % 8 else [{"k": "int", "v": 1}, ins("NAME.QUOTE")]
+        cs.append({"id": "emptystep-%05d" % i, "pre": s, "acts": [{"a": "copy_to_code"}, {"a": "steps", "k": len(s["exec"]) + 3}, {"a": "run_from_start"}]})
+    run_events(ctx, "empty_exec", cs)
     # growth accounting: every RAND-free instruction as a one-instruction program under growth caps 0 and 1
     cs = []
     for c in random_instr_cases(ctx, RANDFREE(ctx.registry), 1 if q else 6, ctx.seed + 43, prefix="growth", small_ints=True, registry=RANDFREE(ctx.registry)):
@@ -712,7 +831,9 @@ def run_c16(ctx):
     cs = []
     for i in range(40 if q else 8000):
         elem = "int" if i % 2 == 0 else "item"
-        el = (lambda: g.int()) if elem == "int" else (lambda: g.item(2, plain=True))
+        odd = [{"k": "id", "v": "\u00e9"}, {"k": "id", "v": "a"}, {"k": "int", "v": 7}, lst([{"k": "id", "v": "\u00fc"}, {"k": "int", "v": 1}]), lst([{"k": "id", "v": "x"}, {"k": "int", "v": 1}]),
+               {"k": "id", "v": "\U0001d11e\u20ac"}, {"k": "id", "v": "\u20ac"}]      # texts that are not ASCII next to ASCII ones of the same shape
+        el = (lambda: g.int()) if elem == "int" else (lambda: g.item(2, plain=True) if g.r.random() < 0.7 else g.r.choice(odd))
         cs.append({"id": "stackhist-%05d" % i, "api": "stack", "elem": elem, "init": [el() for _ in range(g.r.randint(0, 4))],
                    "ops": random_stack_history(g, elem, 200)})
     # positions near usize::MAX (encoded as negative numbers) on stacks of every small length: reported as absent, never fail
@@ -725,6 +846,10 @@ def run_c16(ctx):
                     args = [pos] + ([mk(7)] if m in ("equal_at", "replace") else [])
                     cs.append({"id": "hugepos-%04d" % k, "api": "stack", "elem": elem, "init": [mk(j) for j in range(n)],
                                "ops": [{"m": m, "args": args}, {"m": "size", "args": []}, {"m": "to_string", "args": []}]}); k += 1
+    # elements nested deeper than any limit one might think of (printing and the equality probe pass through item.rs)
+    for k, n in enumerate((3, 100, 127, 128, 129, 130, 200, 300) if q else (1, 2, 3, 50, 100, 126, 127, 128, 129, 130, 131, 200, 255, 256, 257, 300, 400)):
+        cs.append({"id": "deep-%04d" % k, "api": "stack", "elem": "item", "init": [{"k": "int", "v": 5}] * (k % 3),
+                   "ops": [{"m": "deep_probe", "args": [n, 7]}, {"m": "size", "args": []}, {"m": "to_string", "args": []}]})
     run_events(ctx, "stack_histories", cs, spec="TraceApi")
 
 
@@ -789,7 +914,7 @@ def run_c18(ctx):
             elif k < 0.76:
                 ops.append({"m": "clone", "args": []})
             elif k < 0.82:
-                ops.append({"m": g.r.choice(["diff", "eq", "diff_text", "diff_text"]), "args": [g.r.randint(0, 3)]})
+                ops.append({"m": g.r.choice(["diff", "diff_rev", "eq", "diff_text", "diff_text"]), "args": [g.r.randint(0, 3)]})
             elif k < 0.88:
                 ops.append({"m": "filter", "args": [[g.r.randint(0, 3) for _ in range(g.r.randint(0, 3))]]})
             elif k < 0.94:
@@ -838,8 +963,11 @@ def run_c18(ctx):
                 ops += [{"m": "set_weight", "args": [1, 2, w2]}]
             else:
                 ops += [{"m": "remove_edge", "args": [1, 2]}, {"m": "add_edge", "args": [1, 2, w2]}]
-            ops += [{"m": "diff", "args": [1]}, {"m": "diff_text", "args": [1]}, {"m": "get_weight", "args": [1, 2]},
-                    {"m": "clone", "args": []}, {"m": "diff", "args": [1]}, {"m": "diff", "args": [2]}, {"m": "diff_text", "args": [2]}]
+            ops += [{"m": "diff", "args": [1]}, {"m": "diff_rev", "args": [1]}, {"m": "diff_text", "args": [1]}, {"m": "get_weight", "args": [1, 2]},
+                    {"m": "clone", "args": []}, {"m": "diff", "args": [1]}, {"m": "diff_rev", "args": [1]}, {"m": "diff", "args": [2]}, {"m": "diff_rev", "args": [2]}, {"m": "diff_text", "args": [2]},
+                    # an edge into a node that has no incoming edge in the snapshot (and the other way round)
+                    {"m": "add_edge", "args": [2, 1, w1]}, {"m": "diff", "args": [1]}, {"m": "diff_rev", "args": [1]}, {"m": "clone", "args": []},
+                    {"m": "remove_edge", "args": [2, 1]}, {"m": "diff", "args": [1]}, {"m": "diff_rev", "args": [1]}]
             cs.append({"id": "weightpair-%02d-%s" % (k2, via), "api": "graph", "nid": 1, "ops": ops})
     # many incoming edges, a node removed from the middle, then every remaining pair added again (a no-op: at most
     # one edge per ordered pair), in several insertion orders
@@ -906,8 +1034,8 @@ def parser_model(ctx, maxtoks, maxpoints):
 WS_CHARS = [" ", "\t", "\n", "\r", "\u000b", "\u000c", "\u0085", "\u00a0", "\u1680", "\u2003", "\u2028", "\u3000", "  "]
 ODD_TOKENS = ["(", ")", "(", ")", "INT[1,", "FLOAT[1.5,", "BOOL[1,", "INT[,", "INT[", "INT[]", "INT[1,2]", "INT[1,2}", "INT[1,,2]", "INT[\u00e9", "INT[1\u00e9", "BOOL[", "BOOL[1,0,true,false]", "BOOL[TRUE]",
               "FLOAT[", "FLOAT[1.5,-0.25]", "FLOAT[1e3,nan]", "FLOAT[x]", "\u00e9]", "\u00e9", "na\u00efve", "\u4e2d\u6587", "(x", "x)", "()", "1", "-1", "+1", "007",
-              "2147483647", "2147483648", "-2147483648", "-2147483649", "1.5", "-0.125", ".5", "5.", "1e3", "1E-2", "inf", "-Infinity", "NaN", "nan", "infinit", "1.2.3", "1e", "--1",
-              "TRUE", "FALSE", "true", "INTEGER.+", "CODE.QUOTE", "VERIF.PROBE", "VERIF.NOOP*WITH*A*NAME*LONGER*THAN*ANY*BUILTIN*INSTRUCTION", UMLAUT_INSTR, CUSTOM_INSTRS[3], CUSTOM_INSTRS[4], CUSTOM_INSTRS[5], CUSTOM_INSTRS[6], CUSTOM_INSTRS[7], "verif.myinstruction", "VERIFSQUAR", "2verif", "GRAPH.NODE*PREDECESSORS", "EXEC.DO*COUNT", "integer.+", "foo", "foo-bar", "x1", "[1,2]", "BOOLVECTOR.AND", "NOOP"]
+              "2147483647", "2147483648", "-2147483648", "-2147483649", "1.5", "-0.125", ".5", "5.", "1e3", "1E-2", "inf", "-Infinity", "NaN", "nan", "infinit", "infinity", "Infinity", "INFINITY", "+infinity", "+inf", "-inf", "+NaN", "-nan", "iNf", "nAn", "infinityy", "1e400", "-1e400", "1e-400", "0x10", "1_000", "+.5e3", "-1E-3", "1e+2", "e5", ".e5", ".", "1.2.3", "1e", "--1",
+              "TRUE", "FALSE", "true", "INTEGER.+", "CODE.QUOTE", "VERIF.PROBE", "VERIF.NOOP*WITH*A*NAME*LONGER*THAN*ANY*BUILTIN*INSTRUCTION", UMLAUT_INSTR, CUSTOM_INSTRS[3], CUSTOM_INSTRS[4], CUSTOM_INSTRS[5], CUSTOM_INSTRS[6], CUSTOM_INSTRS[7], CUSTOM_INSTRS[10], CUSTOM_INSTRS[11], CUSTOM_INSTRS[12], CUSTOM_INSTRS[13], "Integer.Max", "verif.myinstruction", "VERIFSQUAR", "2verif", "GRAPH.NODE*PREDECESSORS", "EXEC.DO*COUNT", "integer.+", "foo", "foo-bar", "x1", "[1,2]", "BOOLVECTOR.AND", "NOOP"]
 
 
 def random_text(g, maxtok):
@@ -993,7 +1121,7 @@ def run_c11(ctx):
             if k < 0.25: return {"k": "int", "v": g.int()}
             if k < 0.4: return {"k": "bool", "v": g.r.random() < 0.5}
             if k < 0.6: return {"k": "float", "v": g.float()}
-            if k < 0.8: return {"k": "ins", "v": g.r.choice(ctx.registry if g.r.random() < 0.9 else CUSTOM_INSTRS)}
+            if k < 0.8: return {"k": "ins", "v": g.r.choice(ctx.registry if g.r.random() < 0.9 else CUSTOM_TREE)}
             return {"k": "id", "v": g.r.choice(["a", "foo", "x1", "foo-bar", "na\u00efve", "q.r", "T", "inf1", "noop", "integer.+", "exec.if", "Code.Dup", "true", "nan1"])}
         rest, kids = points - 1, []
         while rest > 0:
@@ -1023,7 +1151,7 @@ def run_c11(ctx):
     atoms = [{"k": "int", "v": 7}, {"k": "float", "v": gen.f2b(-2.5)}, {"k": "bool", "v": True}, {"k": "ins", "v": "INTEGER.DUP"},
              {"k": "id", "v": "foo"}, {"k": "ivec", "v": [1, 2]}, {"k": "list", "v": []}, {"k": "ins", "v": "NAME.QUOTE"}]
     cs = []
-    for k, name in enumerate(ctx.registry + ctx.extra + CUSTOM_INSTRS):
+    for k, name in enumerate(ctx.registry + ctx.extra + CUSTOM_TREE):
         for j, a in enumerate(atoms):
             s = gen.empty_state()
             kids = [{"k": "ins", "v": name}, a] if (k + j) % 2 else [a, {"k": "ins", "v": name}]
@@ -1046,6 +1174,14 @@ def run_c11(ctx):
     run_events(ctx, "instruction_pairs", cs)
     # every tree emitted by pushr's own random code generator
     gcases = [{"id": "gen-%05d" % i, "api": "gen", "ops": [{"m": "random_code_with_size", "args": [ctx.registry, g.r.randint(1, 40)]} for _ in range(10)]} for i in range(20 if q else 1500)]
+    # ... whatever state the generator is handed: strings that are no tokens waiting on the NAME stack (left by NAME.CAT,
+    # CODE.PRINT, GRAPH.PRINT), bound names or none, every new-name probability
+    for i in range(12 if q else 300):
+        st = gen.empty_state()
+        st["name"] = ["( 1 2 )", "alpha beta", "", " ", "x)", "INT[1,2]", "7"]
+        st["bind"] = {} if i % 3 else {"a": {"k": "int", "v": 1}}
+        st["cfg"]["new_name_p"] = [0, gen.f2b(0.5), gen.f2b(1.0), 981668463][i % 4]
+        gcases.append({"id": "genst-%05d" % i, "api": "gen", "state": st, "ops": [{"m": "random_code_with_size", "args": [ctx.registry if i % 2 else [], g.r.randint(1, 40)]} for _ in range(10)]})
     gp = os.path.join(ctx.work, "gen_items.cases.ndjson"); ge = os.path.join(ctx.work, "gen_items.events.ndjson")
     with open(gp, "w") as f:
         for c in gcases: f.write(json.dumps(c) + "\n")
@@ -1055,7 +1191,8 @@ def run_c11(ctx):
         e = json.loads(line)
         if e.get("ret", {}).get("t") == "some":
             s = gen.empty_state(); s["exec"] = [e["ret"]["v"]]
-            cs.append({"id": "gentree-%s-%d" % (e["id"], e["i"]), "pre": s, "acts": [{"a": "roundtrip"}, {"a": "print"}]})
+            # (every name the generator emits counts as producible: "also for every t emitted by the random code generator")
+            cs.append({"id": "gentree-%s-%d" % (e["id"], e["i"]), "pre": s, "acts": [{"a": "roundtrip", "src": True}, {"a": "print"}]})
     run_events(ctx, "generated_trees", cs)
 
 
@@ -1085,7 +1222,9 @@ def run_c12(ctx):
                 # nothing but the binding table, the instruction list and the new-name probability may shape the
                 # program: unbound names waiting on the NAME stack, other stacks, the RAND bounds of other types
                 st["name"] = ["pending-one", "pending-two"]; st["int"] = [7]; st["code"] = [{"k": "id", "v": "lurking"}]
-                if k % 2:
+                if k % 5 == 4:       # empty and reversed intervals (the leaves of generated code are any integer, floats in [0, 1))
+                    st["cfg"].update(min_f=gen.f2b(2.0), max_f=gen.f2b(2.0), min_i=5, max_i=5) if k % 2 else st["cfg"].update(min_f=gen.f2b(3.0), max_f=gen.f2b(-3.0), min_i=7, max_i=-7)
+                elif k % 2:
                     st["cfg"].update(min_f=gen.f2b(-8.0), max_f=gen.f2b(8.0), min_i=100, max_i=200)
                 elif k % 4 == 2:
                     st["cfg"].update(min_f=gen.f2b(-4.0), max_f=gen.f2b(-1.0), min_i=-7, max_i=-3)
@@ -1143,6 +1282,10 @@ def run_c13(ctx):
     for n in range(2, (10 if q else 30)):
         for sp in (0.1, 0.3, 0.5):
             ops.append({"m": "random_bool_vector_cover", "args": [n, fb(sp), int((30 + math.log(n)) * n) + 1]})
+    # long vectors: the number of TRUE bits is exact however many positions have to be drawn
+    for n, sp in ((1 << 16, 0.5), (1 << 20, 0.25), (1 << 24, 0.5), (3000001, 0.75), (-7, 0.5)) if q else \
+            ((1 << 16, 0.5), (1 << 20, 0.25), (1 << 24, 0.5), (1 << 24, 0.5), (1 << 25, 0.5), (3000001, 0.75), (1 << 22, 0.75), (-7, 0.5)):
+        ops.append({"m": "random_bool_vector_count", "args": [n, fb(sp)]})
     for n in [0, 1, 2, 5, N, -1]:
         for (lo, hi) in [(0, 1), (0, 2), (-3, 4), (5, 5), (7, 3), (-2147483648, 2147483647), (2147483646, 2147483647), (-10, 10)]:
             for _ in range(draws):
@@ -1169,7 +1312,10 @@ def run_c13(ctx):
             if hi - lo in (1, 2, 20):
                 o.append({"m": "random_integer_stats", "args": [lo, hi, 30 * (hi - lo) + 30]})
             cs.append({"id": "genscalar-%03d" % k, "api": "gen", "state": st, "ops": o}); k += 1
-    for bound in ({}, {"a": {"k": "int", "v": 1}}, {"a": {"k": "int", "v": 1}, "b": {"k": "bool", "v": True}, "zz": {"k": "list", "v": []}}):
+    for bound in ({}, {"a": {"k": "int", "v": 1}}, {"a": {"k": "int", "v": 1}, "b": {"k": "bool", "v": True}, "zz": {"k": "list", "v": []}},
+                  # names no parser produces (NAME.CAT joins with a blank; the empty name) are bound names all the same
+                  {"ALPHA BETA": {"k": "int", "v": 7}, "GAMMA DELTA": {"k": "int", "v": 9}}, {"": {"k": "int", "v": 1}}, {"x y": {"k": "bool", "v": True}},
+                  {"\u00e9t\u00e9": {"k": "int", "v": 1}, "( a )": {"k": "int", "v": 2}, "7": {"k": "int", "v": 3}, "INTEGER.+": {"k": "int", "v": 4}}):
         for pnew in (0.001, 0.5, 1.0, 0.0):      # the probability of a NEW name must not leak into the choice of a BOUND name
             st = gen.empty_state(); st["bind"] = bound; st["cfg"]["new_name_p"] = fb(pnew)
             cs.append({"id": "genname-%d-%s" % (len(bound), pnew), "api": "gen", "state": st, "ops": [{"m": "existing_random_name", "args": [sorted(bound)]} for _ in range(draws * 4)] + [{"m": "new_random_name", "args": []}]})
@@ -1464,6 +1610,12 @@ def run_c15(ctx):
             prog += [idn(a), ins("EXEC.DEFINE"), idn(b)]
         s2["exec"] = prog + [idn(top)]
         cs.append({"id": "aliasinto-prog-%d" % k, "pre": s2, "acts": [{"a": "steps", "k": 60}], "predict": "bounded"})
+    # EXEC.CMD starts its command and goes on: a command that keeps running (or keeps writing) must not hold the step
+    for k, names in enumerate((["9", "sleep"], ["sleep 9; true", "-c", "sh"])):
+        s = gen.empty_state()
+        s["name"] = names; s["int"] = [len(names) - 1]
+        s["exec"] = [ins("EXEC.CMD"), I(1)]
+        cs.append({"id": "execcmd-running-%d" % k, "pre": s, "acts": [{"a": "steps", "k": 2}], "predict": "bounded"})
     run_events(ctx, "combinations", cs, mem_kb=1024 * 1024, timeout_case=6, env={"PV_UNGUARDED": "1"}, max_hangs=40)
     # (C) doubling programs under the default limits
     cs = []
@@ -1500,6 +1652,26 @@ def run_c10(ctx):
         mc_stage(ctx, tag, instrs, pools)
     run_events(ctx, "rand_programs", random_program_cases(ctx, 60 if q else 4000, ctx.seed))
     run_events(ctx, "rand_instr", random_instr_cases(ctx, ctx.registry, 4 if q else 150, ctx.seed + 2))
+    # guards that fail because of HOW the state came about (equal snapshots built in different orders), and instructions
+    # inside the structures other instructions leave behind (FLUSH / POP inside a running loop)
+    run_events(ctx, "histories", same_graph_cases() + flush_in_loop_cases(ctx))
+
+
+def flush_in_loop_cases(ctx):
+    """X.FLUSH / X.POP / X.DUP executed from inside a running EXEC.LOOP / CODE.LOOP / INTVECTOR.LOOP body: they touch their own
+    stack only (the loop's continuation on EXEC and its counter on INDEX are items like any other)"""
+    cs = []
+    I = lambda v: {"k": "int", "v": v}
+    names = [n for n in ctx.registry if n.split(".")[-1] in ("FLUSH", "POP", "DUP", "SWAP", "ROT", "STACKDEPTH") and not n.startswith("INDEX.")]
+    for k, name in enumerate(names):
+        for loop in ("EXEC.LOOP",) if k % 3 else ("EXEC.LOOP", "EXEC.DO*COUNT" if "EXEC.DO*COUNT" in ctx.registry else "EXEC.LOOP"):
+            s = gen.empty_state()
+            s["int"] = [3, 7, 8]; s["bool"] = [True, False]; s["float"] = [gen.f2b(1.5), gen.f2b(2.0)]; s["name"] = ["a", "b"]
+            s["code"] = [I(1), lst([I(2)])]; s["bvec"] = [[True], [False]]; s["ivec"] = [[1], [2]]; s["fvec"] = [[gen.f2b(1.0)], [gen.f2b(2.0)]]
+            s["index"] = [{"cur": 0, "dst": 5}]
+            s["exec"] = [I(5), ins("INDEX.DEFINE"), I(3), ins("INDEX.DEFINE"), ins(loop), lst([I(7), ins(name), I(8)]), I(9)]
+            cs.append({"id": "inloop-%s-%s" % (name, loop), "pre": s, "acts": [{"a": "steps", "k": 14}]})
+    return cs
 
 
 def run_c01(ctx):
@@ -1527,6 +1699,15 @@ def run_c01(ctx):
         s["exec"] = [ins("EXEC.CMD"), {"k": "int", "v": 1}]
         cs.append({"id": "execcmd-%d" % k, "pre": s, "acts": [{"a": "steps", "k": 2}]})
     run_events(ctx, "exec_cmd_not_startable", cs, env={"PV_CMD_NOTFOUND": "1"})
+    # ... and on harmless commands that do start, whatever they print (bytes that are no UTF-8, nothing, much)
+    cs = []
+    for k, names in enumerate([["\\377\\376", "printf"], ["hi", "echo"], ["%s\\n", "printf"]] if q else
+                              [["\\377\\376", "printf"], ["hi", "echo"], ["%s\\n", "printf"], ["\u00e9", "-n", "echo"], ["%0100000d", "printf"], ["\\200", "printf"]]):
+        s = gen.empty_state()
+        s["name"] = names + ["below"]; s["int"] = [len(names) - 1, 5]
+        s["exec"] = [ins("EXEC.CMD"), {"k": "int", "v": 1}]
+        cs.append({"id": "execcmd-harmless-%d" % k, "pre": s, "acts": [{"a": "steps", "k": 2}]})
+    run_events(ctx, "exec_cmd_harmless", cs)
     # sizes: long vectors (sort / block thresholds) and long multi-byte names (byte-length thresholds)
     run_events(ctx, "long_vectors", long_vector_cases(ctx, 2 if q else 40, ctx.seed + 31))
     run_events(ctx, "multibyte_names", long_name_cases(ctx, q))
@@ -1575,15 +1756,16 @@ PLANS = {
     "C12": dict(run=run_c12, judge=dict(owns_crash=True)),
     "C13": dict(run=run_c13),
     "C05": dict(run=run_c05),
-    "C06": dict(run=run_c06),
-    "C07": dict(run=run_c07),
+    # (the outcome of a whole run is C02's subject; in these stages it is the loop state / the pending quote that is compared)
+    "C06": dict(run=run_c06, judge=dict(extra_owner=lambda j, stage: stage == "cut_loops" and j.get("subj") == "run")),
+    "C07": dict(run=run_c07, judge=dict(extra_owner=lambda j, stage: stage == "pending_quote" and j.get("subj") == "run")),
     "C08": dict(run=run_c08),
     "C09": dict(run=run_c09),
     "C10": dict(run=run_c10, judge=dict(frame=True)),
     "C14": dict(run=run_c14),
     "C15": dict(run=run_c15),
     "C16": dict(run=run_c16),
-    "C17": dict(run=run_c17),
+    "C17": dict(run=run_c17, judge=dict(extra_owner=lambda j, stage: stage == "io_runs" and j.get("subj") == "run" and bool(set(j.get("fields", [])) & {"input", "output"}))),
     "C18": dict(run=run_c18),
     "C19": dict(run=run_c19),
     "C20": dict(run=run_c20),
